@@ -108,9 +108,10 @@ class SimSocket(object):
         sim.log('send', self.name, len(data), _h(data))
         peer = self.peer
         if peer.closed:
-            # first write after the peer closed: accepted by the kernel, answered by RST
+            # first write after the peer closed: accepted by the kernel, answered by RST.
+            # Linux semantics: data that was received before the RST stays readable, the
+            # reset is reported once the receive queue is empty (see recv).
             self.rx.rst = True
-            self.rx.rcvbuf.clear()
             sim.bump('net.write_after_peer_close')
             return None
         if self.on_send is not None:
@@ -138,11 +139,16 @@ class SimSocket(object):
             raise OSError(errno.EBADF, 'Bad file descriptor')
         if not self.connected:
             raise OSError(errno.ENOTCONN, 'not connected')
-        ok = self.sim.wait(self._readable, self.timeout, 'recv')
+        if flags & _realsocket.MSG_WAITALL and n > 0:
+            rx0 = self.rx
+            ok = self.sim.wait(lambda: len(rx0.rcvbuf) >= n or rx0.fin or rx0.rst or self.closed,
+                               self.timeout, 'recv-waitall')
+        else:
+            ok = self.sim.wait(self._readable, self.timeout, 'recv')
         if self.closed:
             raise OSError(errno.EBADF, 'Bad file descriptor')
         rx = self.rx
-        if rx.rst:
+        if rx.rst and not rx.rcvbuf:
             raise ConnectionResetError(errno.ECONNRESET, 'Connection reset by peer')
         if rx.rcvbuf:
             k = min(n, len(rx.rcvbuf))
@@ -555,6 +561,14 @@ class SocketNS(object):
     SHUT_RD, SHUT_WR, SHUT_RDWR = SHUT_RD, SHUT_WR, SHUT_RDWR
     error = OSError
     timeout = _realsocket.timeout
+    herror = _realsocket.herror
+    gaierror = _realsocket.gaierror
+    MSG_WAITALL = _realsocket.MSG_WAITALL
+    MSG_PEEK = _realsocket.MSG_PEEK
+    MSG_DONTWAIT = _realsocket.MSG_DONTWAIT
+    SOL_SOCKET, SO_REUSEADDR, SO_KEEPALIVE = (_realsocket.SOL_SOCKET, _realsocket.SO_REUSEADDR,
+                                              _realsocket.SO_KEEPALIVE)
+    IPPROTO_TCP, TCP_NODELAY = _realsocket.IPPROTO_TCP, _realsocket.TCP_NODELAY
 
     def __init__(self, net):
         self.net = net
